@@ -3,6 +3,7 @@ import GV.Spec.GoChanRefine
 import GV.Proofs.ChanInv
 import GV.Model.SchedInv
 import GV.Proofs.SchedInv
+import GV.Proofs.SchedLive
 /-
   GV.Props.C03 — channels, select and the goroutine scheduler (compiler/prelude/goroutines.js, with the two
   round-2 repairs: the `$select` send entry takes `closed`; `close(nil)` panics).
@@ -14,11 +15,12 @@ import GV.Proofs.SchedInv
   `close_semantics` (incl. the wake results), `nil_never_proceeds`, `no_lost_wakeup` (queue entries ↔ sleeping
   goroutines, run queue), `awake_count`, `deadlock_report_iff`.
   `chan_shape_design` (the design's "recvQ ≠ [] → sendQ = []") is too strong — counterexample proved.
+  `blocked_not_possible` (liveness half of no_lost_wakeup: a sleeping goroutine's operation is not currently possible).
   Stated, NOT proved: `refines_go` (decided per step by `GV.Spec.GoChanRefine.verdict` on every step the
-  correspondence executes), `blocked_not_possible` (the liveness half of no_lost_wakeup).
+  correspondence executes).
 -/
 namespace GV.Props.C03
-open GV.Chan GV.Sched GV.Proofs.ChanInv GV.SchedInv GV.Proofs.SchedInv
+open GV.Chan GV.Sched GV.Proofs.ChanInv GV.SchedInv GV.Proofs.SchedInv GV.Proofs.SchedLive
 
 def reach (evs : List Event) : State := runAll GV.Sched.init evs
 
@@ -302,15 +304,86 @@ theorem deadlock_report_iff (t : State) (g : Nat) (hlt : g < t.gs.length) (he : 
       simp [h0]; intro h1 h2; exact this ⟨h1, h2⟩
   · simp
 
-/-! ## stated, not proved -/
+/-- communication clause `k` of sleeping goroutine `g` cannot proceed now: its channel is nil, or it is open and
+    (send) the buffer is full and no OTHER goroutine waits to receive / (receive) the buffer is empty and no OTHER
+    goroutine waits to send (a select's own entries on the other queue do not count: a goroutine cannot
+    rendezvous with itself) -/
+def NotPossible (s : State) (g : Nat) : Case → Prop
+  | .dflt => True
+  | .send c _ => (getC s c).isNil = true ∨
+      ((getC s c).closed = false ∧ (getC s c).buf.length = (getC s c).cap ∧ ∀ e ∈ (getC s c).recvQ, e.gid = g)
+  | .recv c => (getC s c).isNil = true ∨
+      ((getC s c).closed = false ∧ (getC s c).buf = [] ∧ ∀ e ∈ (getC s c).sendQ, e.gid = g)
 
-/-- liveness half of no_lost_wakeup — NOT proved: a sleeping goroutine's operation is not currently possible
-    (needs two further invariants: every sleeping goroutine's entries ARE in the queues, and a channel with both
-    queues non-empty holds entries of a single select). Checked per step by the Go-level verdict of the spec. -/
-def blocked_not_possible : Prop := ∀ (evs : List Event) (g : Nat) (c v : Nat),
-  (getG (reach evs) g).asleep = true → (getG (reach evs) g).exit = false →
-  (getG (reach evs) g).blocked = some (.send c v) → (getC (reach evs) c).isNil = false →
-  (getC (reach evs) c).closed = false ∧ (getC (reach evs) c).recvQ = [] ∧ (getC (reach evs) c).buf.length = (getC (reach evs) c).cap
+/-- **no_lost_wakeup** (liveness half): in every history, every goroutine that is asleep (and has not exited) is
+    suspended in an operation that is NOT currently possible — a plain send/receive, or a select ALL of whose
+    clauses are not possible. So no goroutine sleeps through a wake-up it was entitled to. -/
+theorem blocked_not_possible (evs : List Event) (g : Nat) (hlt : g < (reach evs).gs.length)
+    (ha : (getG (reach evs) g).asleep = true) (he : (getG (reach evs) g).exit = false) :
+    match (getG (reach evs) g).blocked with
+    | none => False
+    | some (.send c v) => NotPossible (reach evs) g (.send c v)
+    | some (.recv c) => NotPossible (reach evs) g (.recv c)
+    | some (.select cs) => ∀ i, NotPossible (reach evs) g (cs.getD i .dflt) := by
+  have hcmp : Cmp (reach evs) := (runAll_both evs _ init_ginv init_cmp).2
+  have hinv : AllInv (reach evs).chans := runAll_inv evs _ init_inv
+  have hce : AllCE (reach evs).chans := runAll_ce evs _ init_ce
+  have hp := hcmp g hlt ha he
+  generalize reach evs = s at *
+  have sendCase : ∀ c v, (∃ e ∈ ents s c true, e.gid = g) → (getC s c).isNil = false → NotPossible s g (.send c v) := by
+    intro c v ⟨e, hm, hg⟩ _
+    rw [ents_send] at hm
+    have hne : (getC s c).sendQ ≠ [] := List.ne_nil_of_mem hm
+    have hi : ChanInv (getC s c) := hinv c
+    have hopen : (getC s c).closed = false := by
+      cases hcl : (getC s c).closed with
+      | false => rfl
+      | true => exact absurd ((hce c) hcl).1 hne
+    exact Or.inr ⟨hopen, Nat.le_antisymm hi.buf_le (hi.send_full hne), fun e2 h2 => by rw [← hi.mixed e hm e2 h2]; exact hg⟩
+  have recvCase : ∀ c, (∃ e ∈ ents s c false, e.gid = g) → (getC s c).isNil = false → NotPossible s g (.recv c) := by
+    intro c ⟨e, hm, hg⟩ _
+    rw [ents_recv] at hm
+    have hne : (getC s c).recvQ ≠ [] := List.ne_nil_of_mem hm
+    have hi : ChanInv (getC s c) := hinv c
+    have hopen : (getC s c).closed = false := by
+      cases hcl : (getC s c).closed with
+      | false => rfl
+      | true => exact absurd ((hce c) hcl).2 hne
+    exact Or.inr ⟨hopen, hi.recv_buf hne, fun e1 h1 => by rw [hi.mixed e1 h1 e hm]; exact hg⟩
+  cases hb : (getG s g).blocked with
+  | none => rw [hb] at hp; exact hp
+  | some b =>
+    rw [hb] at hp
+    cases b with
+    | send c v =>
+      simp only
+      cases hn : (getC s c).isNil with
+      | true => exact Or.inl hn
+      | false => exact sendCase c v (hp.2 hn) hn
+    | recv c =>
+      simp only
+      cases hn : (getC s c).isNil with
+      | true => exact Or.inl hn
+      | false => exact recvCase c (hp.2 hn) hn
+    | select cs =>
+      simp only
+      intro i
+      cases hk : cs.getD i .dflt with
+      | dflt => trivial
+      | send c v =>
+        cases hn : (getC s c).isNil with
+        | true => exact Or.inl hn
+        | false =>
+          obtain ⟨e, hm, hg, _⟩ := ((hp i).1 c v hk).2 hn
+          exact sendCase c v ⟨e, hm, hg⟩ hn
+      | recv c =>
+        cases hn : (getC s c).isNil with
+        | true => exact Or.inl hn
+        | false =>
+          obtain ⟨e, hm, hg, _⟩ := ((hp i).2 c hk).2 hn
+          exact recvCase c ⟨e, hm, hg⟩ hn
+
+/-! ## stated, not proved -/
 
 /-- refines_go — NOT proved: every step of the model is a step of GV.Spec.GoChan;
     `GV.Spec.GoChanRefine.verdict` decides it per step and is evaluated on every step the correspondence runs execute -/
